@@ -1,22 +1,48 @@
-// Driver for spec/KeyGen (C33): replays TLC behaviours (Tick / MakeKey / Put by
-// two uploading threads) into the real S3 object-key generator.
+// Driver for spec/KeyGen (C33): replays TLC behaviours into the real S3 object-key
+// generator and the real S3Storage.Upload.
 //
-// One abstract upload is a batch of real ones, by the step's `via`:
+// Batch uploads (MakeKey / Put): one abstract upload is a batch of real ones, by
+// the step's `via`:
 //
 //	gen     one call of the real generateUUID (verif export)
 //	burst   10^4 (quick) .. 10^5 (thorough) calls in a tight loop
 //	par     the same number of calls spread over 16 goroutines
-//	upload  real S3Storage.Upload calls from 16 goroutines against a recording
-//	        S3 endpoint on loopback; the key is what the endpoint saw in the PUT
+//	upload  free-running real S3Storage.Upload calls from 16 goroutines on the
+//	        behaviour's storage, every call with its own payload and encoding; the
+//	        keys are what the endpoint saw in the PUTs, and every returned URL must
+//	        name an object holding exactly that call's payload and encoding
+//
+// Staged uploads (StartUp / StepUp / Audit): ONE real Upload call is held at the
+// stations of the specification while other uploads on the same storage run:
+//
+//	minted     inside crypto/rand.Reader.Read called by the key generator: the call has
+//	           entered Upload and its key's random bytes are drawn (crypto/rand copies
+//	           them into the generator's buffer only after the hold)
+//	assembled  in an SDK Initialize-step middleware of PutObject: the request
+//	           parameters are written, nothing is serialised yet
+//	arrived    at the endpoint: the PUT was received completely, nothing stored yet
+//	stored     at the endpoint: the object is stored, the response not yet written
+//	presign    in the same SDK middleware for the pre-sign GetObject
+//
+// Exactly one upload runs at a time between stations, so every station hit belongs
+// to the running upload and the schedule is the one TLC chose. The SDK middleware is
+// put onto the *s3.Client the storage holds (found by type through reflection; the
+// client value is replaced in place by s3.New(client.Options(), +middleware)); when
+// no such field exists the two SDK stations do not hold and the upload is held at the
+// next one that does.
 //
 // gen/burst/par run inside ONE synctest bubble: the clock is frozen unless the
 // behaviour says Tick, so "two uploads read the same clock value" is forced, not
-// hoped for. The S3 endpoint and the goroutines that call Upload live outside
-// the bubble (network I/O cannot run on virtual time); the stepper talks to them
-// over channels created outside the bubble.
+// hoped for. The S3 endpoint and every goroutine that calls Upload live outside
+// the bubble (network I/O cannot run on virtual time): the stepper hands closures
+// to a worker goroutine started before the bubble.
 package keygen
 
 import (
+	"bytes"
+	"context"
+	crand "crypto/rand"
+	"crypto/sha256"
 	"fmt"
 	"io"
 	"math/rand"
@@ -24,11 +50,16 @@ import (
 	"net/http/httptest"
 	"net/url"
 	"os"
+	"reflect"
 	"strings"
 	"sync"
 	"testing"
 	"testing/synctest"
 	"time"
+	"unsafe"
+
+	"github.com/aws/aws-sdk-go-v2/service/s3"
+	"github.com/aws/smithy-go/middleware"
 
 	vgis3 "github.com/Query-farm/vgi-rpc-go/vgirpc/s3"
 
@@ -37,117 +68,583 @@ import (
 
 const goroutines = 16
 
+const bucketName = "bkt"
+
+// stations of a staged upload (index = section of Upload after which it sits)
+const (
+	stMinted = 1 + iota
+	stAssembled
+	stArrived
+	stStored
+	stPresign
+	stDone
+)
+
+var stationIdx = map[string]int{"minted": stMinted, "assembled": stAssembled, "arrived": stArrived,
+	"stored": stStored, "presign": stPresign, "done": stDone}
+
 // ---------------------------------------------------------------------------
-// recording S3 endpoint + upload worker (outside the bubble)
+// worker outside the bubble
 
-type uploadReq struct {
-	n     int
-	reply chan uploadRes
+var (
+	jobs    = make(chan func()) // created outside the bubble
+	jobDone = make(chan struct{})
+)
+
+// outside runs fn on the worker goroutine (outside the synctest bubble) and waits.
+func outside(fn func()) {
+	jobs <- fn
+	<-jobDone
 }
 
-type uploadRes struct {
-	keys []string
-	err  error
+// ---------------------------------------------------------------------------
+// fake S3 endpoint
+
+type putRec struct {
+	path      string
+	body      []byte
+	enc       string // Content-Encoding as received ("" = none)
+	overwrote bool
 }
 
-type s3fake struct {
-	mu   sync.Mutex
-	puts []string
+type stUpload struct {
+	uid     int
+	enc     string // "" or the encoding
+	payload []byte
+
+	// gate state (under mgr.mu)
+	target   int           // hold at the first station >= target
+	at       int           // last station reached
+	release  chan struct{} // non-nil while held
+	finished bool
+	stuck    bool
+
+	// sightings (under mgr.mu)
+	own      string // path first seen carrying this upload (SDK parameters, else PUT)
+	asmClaim string
+	puts     []*putRec
+	putClaim string
+	stored   *putRec
+	preKey   string
+	url      string
+	err      error
 }
 
-func (f *s3fake) ServeHTTP(w http.ResponseWriter, r *http.Request) {
-	io.Copy(io.Discard, r.Body)
-	if r.Method == http.MethodPut {
-		f.mu.Lock()
-		f.puts = append(f.puts, r.URL.Path)
-		f.mu.Unlock()
-		w.Header().Set("ETag", `"d41d8cd98f00b204e9800998ecf8427e"`)
+type mgr struct {
+	srv *httptest.Server
+
+	mu       sync.Mutex
+	bucket   map[string]*putRec
+	log      []*putRec
+	cur      *stUpload
+	ups      map[int]*stUpload
+	order    []*stUpload       // finished staged uploads in completion order
+	seen     map[string]string // bare key -> who produced it first (shared with the stepper)
+	returned map[string]string // bare key -> who got it back in a URL
+	payloads map[[32]byte]string
+	events   chan string
+	wg       sync.WaitGroup
+
+	st       *vgis3.S3Storage
+	sdkGate  bool
+	prefix   string // effective key prefix
+	origRand io.Reader
+}
+
+var theMgr *mgr // nil when the upload path could not be set up
+
+func (m *mgr) bare(path string) string {
+	return strings.TrimPrefix(strings.TrimPrefix(path, "/"+bucketName+"/"), m.prefix)
+}
+
+// gate is called by the code under test (through the seams) when it reaches station st.
+func (m *mgr) gate(st int, sight func(u *stUpload)) {
+	m.mu.Lock()
+	u := m.cur
+	if u == nil || u.finished || st <= u.at {
+		m.mu.Unlock()
+		return
 	}
+	u.at = st
+	if sight != nil {
+		sight(u)
+	}
+	if st < u.target {
+		m.mu.Unlock()
+		return
+	}
+	ch := make(chan struct{})
+	u.release = ch
+	m.mu.Unlock()
+	m.events <- "held"
+	select {
+	case <-ch:
+	case <-time.After(90 * time.Second):
+	}
+}
+
+func (m *mgr) ServeHTTP(w http.ResponseWriter, r *http.Request) {
+	body, err := io.ReadAll(r.Body)
+	if r.Method != http.MethodPut {
+		w.WriteHeader(200)
+		return
+	}
+	if err != nil {
+		// the client gave up in the middle of the request: nothing arrives, nothing is stored
+		w.WriteHeader(400)
+		return
+	}
+	enc := []string{}
+	for _, e := range strings.Split(r.Header.Get("Content-Encoding"), ",") {
+		if e = strings.TrimSpace(e); e != "" && e != "aws-chunked" {
+			enc = append(enc, e)
+		}
+	}
+	rec := &putRec{path: r.URL.Path, body: body, enc: strings.Join(enc, ",")}
+	m.gate(stArrived, func(u *stUpload) {
+		u.puts = append(u.puts, rec)
+		u.putClaim = m.claim(u, rec.path)
+	})
+	m.mu.Lock()
+	rec.overwrote = m.bucket[rec.path] != nil
+	m.bucket[rec.path] = rec
+	m.log = append(m.log, rec)
+	if u := m.cur; u != nil && len(u.puts) > 0 && u.puts[len(u.puts)-1] == rec {
+		u.stored = rec
+	}
+	m.mu.Unlock()
+	m.gate(stStored, nil)
+	w.Header().Set("ETag", `"d41d8cd98f00b204e9800998ecf8427e"`)
 	w.WriteHeader(200)
 }
 
-func (f *s3fake) drain() []string {
-	f.mu.Lock()
-	defer f.mu.Unlock()
-	p := f.puts
-	f.puts = nil
-	return p
+// claim classifies the key under which upload u shows up (mu held).
+func (m *mgr) claim(u *stUpload, path string) string {
+	tag := fmt.Sprintf("staged upload %d", u.uid)
+	b := m.bare(path)
+	who, known := m.seen[b]
+	if u.own == "" {
+		if known && who != tag {
+			return "other"
+		}
+		u.own = path
+		m.seen[b] = tag
+		return "own"
+	}
+	if path == u.own {
+		return "own"
+	}
+	if known && who != tag {
+		return "other"
+	}
+	return "stray"
 }
 
-var uploads chan uploadReq // nil when the upload path could not be set up
+type gatedRand struct {
+	orig io.Reader
+	m    *mgr
+}
 
-func startUploader() (stop func(), err error) {
+func (g *gatedRand) Read(p []byte) (int, error) {
+	n, err := g.orig.Read(p)
+	g.m.gate(stMinted, nil) // the key's random bytes are drawn; rand.Read hands them to its caller after this
+	return n, err
+}
+
+func deref(s *string) string {
+	if s == nil {
+		return ""
+	}
+	return *s
+}
+
+// instrument puts the station middleware onto the *s3.Client held by st.
+func (m *mgr) instrument(st *vgis3.S3Storage) bool {
+	v := reflect.ValueOf(st).Elem()
+	want := reflect.TypeOf((*s3.Client)(nil))
+	for i := 0; i < v.NumField(); i++ {
+		f := v.Field(i)
+		if f.Type() != want || f.IsNil() {
+			continue
+		}
+		c := (*s3.Client)(unsafe.Pointer(f.UnsafePointer())) // the field is unexported: reached by address
+		mw := middleware.InitializeMiddlewareFunc("verifStations",
+			func(ctx context.Context, in middleware.InitializeInput, next middleware.InitializeHandler) (middleware.InitializeOutput, middleware.Metadata, error) {
+				switch p := in.Parameters.(type) {
+				case *s3.PutObjectInput:
+					m.gate(stAssembled, func(u *stUpload) {
+						u.asmClaim = m.claim(u, "/"+deref(p.Bucket)+"/"+deref(p.Key))
+					})
+				case *s3.GetObjectInput:
+					m.gate(stPresign, func(u *stUpload) { u.preKey = deref(p.Key) })
+				}
+				return next.HandleInitialize(ctx, in)
+			})
+		*c = *s3.New(c.Options(), func(o *s3.Options) {
+			o.APIOptions = append(o.APIOptions, func(stack *middleware.Stack) error {
+				return stack.Initialize.Add(mw, middleware.Before)
+			})
+		})
+		return true
+	}
+	return false
+}
+
+func startEndpoint() (stop func(), err error) {
 	for k, v := range map[string]string{
 		"AWS_ACCESS_KEY_ID": "verif", "AWS_SECRET_ACCESS_KEY": "verifverifverif",
 		"AWS_EC2_METADATA_DISABLED": "true", "AWS_CONFIG_FILE": os.DevNull,
 		"AWS_SHARED_CREDENTIALS_FILE": os.DevNull, "AWS_REQUEST_CHECKSUM_CALCULATION": "when_required",
+		// no fault is ever injected, so no attempt may fail: a retry must not hide one that does
+		"AWS_MAX_ATTEMPTS": "1",
 	} {
 		os.Setenv(k, v)
 	}
 	os.Unsetenv("AWS_SESSION_TOKEN")
 	os.Unsetenv("AWS_PROFILE")
-	fake := &s3fake{}
-	srv := httptest.NewServer(fake)
-	st, err := vgis3.NewS3Storage("bkt", vgis3.S3Config{Region: "us-east-1", EndpointURL: srv.URL, Prefix: "pfx/"})
-	if err != nil {
-		srv.Close()
+	os.Unsetenv("AWS_CA_BUNDLE") // plain-http loopback endpoint; parsing the system bundle costs ms per storage
+	m := &mgr{events: make(chan string, 16)}
+	m.srv = httptest.NewServer(m)
+	// probe: can a storage be built at all?
+	if _, err := vgis3.NewS3Storage(bucketName, vgis3.S3Config{Region: "us-east-1", EndpointURL: m.srv.URL}); err != nil {
+		m.srv.Close()
 		return nil, err
 	}
-	ch := make(chan uploadReq)
+	theMgr = m
 	go func() {
-		for rq := range ch {
-			fake.drain()
-			var wg sync.WaitGroup
-			var mu sync.Mutex
-			var firstErr error
-			urls := []string{}
-			for g := 0; g < goroutines; g++ {
-				cnt := rq.n / goroutines
-				if g < rq.n%goroutines {
-					cnt++
-				}
-				wg.Add(1)
-				go func() {
-					defer wg.Done()
-					for i := 0; i < cnt; i++ {
-						u, err := st.Upload([]byte("x"), nil, "")
-						mu.Lock()
-						if err != nil && firstErr == nil {
-							firstErr = err
-						}
-						urls = append(urls, u)
-						mu.Unlock()
-					}
-				}()
-			}
-			wg.Wait()
-			res := uploadRes{err: firstErr}
-			puts := fake.drain()
-			if firstErr == nil {
-				if len(puts) != rq.n {
-					res.err = fmt.Errorf("endpoint saw %d PUTs for %d uploads", len(puts), rq.n)
-				}
-				// the key in the returned pre-signed URL must be one the endpoint stored
-				stored := map[string]int{}
-				for _, p := range puts {
-					stored[p]++
-				}
-				for _, u := range urls {
-					pu, err := url.Parse(u)
-					if err != nil || stored[pu.Path] == 0 {
-						res.err = fmt.Errorf("returned URL %q names no stored object", u)
-						break
-					}
-				}
-			}
-			for _, p := range puts {
-				res.keys = append(res.keys, strings.TrimPrefix(p, "/bkt/"))
-			}
-			rq.reply <- res
+		for fn := range jobs {
+			fn()
+			jobDone <- struct{}{}
 		}
 	}()
-	uploads = ch
-	return func() { close(ch); srv.Close() }, nil
+	return func() { close(jobs); m.srv.Close() }, nil
+}
+
+// begin builds the behaviour's storage instance.
+func (m *mgr) begin(prefix string, seen map[string]string, staged bool) error {
+	st, err := vgis3.NewS3Storage(bucketName, vgis3.S3Config{Region: "us-east-1", EndpointURL: m.srv.URL, Prefix: prefix})
+	if err != nil {
+		return err
+	}
+	m.mu.Lock()
+	defer m.mu.Unlock()
+	m.st = st
+	m.prefix = prefix
+	if prefix == "" {
+		m.prefix = "vgi-rpc/"
+	}
+	m.bucket = map[string]*putRec{}
+	m.log = nil
+	m.cur = nil
+	m.ups = map[int]*stUpload{}
+	m.order = nil
+	m.seen = seen
+	m.returned = map[string]string{}
+	m.payloads = map[[32]byte]string{}
+	m.sdkGate, m.origRand = false, nil
+	if staged {
+		m.sdkGate = m.instrument(st)
+		m.origRand = crand.Reader
+		crand.Reader = &gatedRand{orig: m.origRand, m: m}
+	}
+	return nil
+}
+
+// end lets every held upload run to completion and drops the storage.
+func (m *mgr) end() {
+	m.mu.Lock()
+	m.cur = nil
+	for _, u := range m.ups {
+		u.target = stDone + 1
+		if u.release != nil {
+			close(u.release)
+			u.release = nil
+		}
+	}
+	m.mu.Unlock()
+	fin := make(chan struct{})
+	go func() { m.wg.Wait(); close(fin) }()
+	select {
+	case <-fin:
+	case <-time.After(60 * time.Second):
+	}
+	for {
+		select {
+		case <-m.events:
+			continue
+		default:
+		}
+		break
+	}
+	if m.origRand != nil {
+		crand.Reader = m.origRand
+	}
+	m.srv.CloseClientConnections()
+	m.mu.Lock()
+	m.st = nil
+	m.mu.Unlock()
+}
+
+// advance runs upload u (starting it when needed) until it is held at the first
+// station >= target or has returned.
+func (m *mgr) advance(u *stUpload, target int, start bool) {
+	m.mu.Lock()
+	if u.finished || u.stuck || (!start && u.at >= target) {
+		m.mu.Unlock()
+		return
+	}
+	m.cur = u
+	u.target = target
+	ch := u.release
+	u.release = nil
+	st := m.st
+	m.mu.Unlock()
+	if start {
+		m.wg.Add(1)
+		go func() {
+			defer m.wg.Done()
+			res, err := st.Upload(u.payload, nil, u.enc)
+			m.mu.Lock()
+			u.url, u.err, u.finished, u.at = res, err, true, stDone
+			m.order = append(m.order, u)
+			running := m.cur == u
+			m.mu.Unlock()
+			if running {
+				m.events <- "returned"
+			}
+		}()
+	} else if ch != nil {
+		close(ch)
+	}
+	select {
+	case <-m.events:
+	case <-time.After(45 * time.Second):
+		m.mu.Lock()
+		u.stuck = true
+		m.mu.Unlock()
+	}
+	m.mu.Lock()
+	m.cur = nil
+	m.mu.Unlock()
+}
+
+func encName(h string) string {
+	if h == "" {
+		return "none"
+	}
+	return h
+}
+
+// whose classifies a stored body from the point of view of upload payload p.
+func (m *mgr) whose(body, p []byte) string {
+	if bytes.Equal(body, p) {
+		return "own"
+	}
+	if _, ok := m.payloads[sha256.Sum256(body)]; ok {
+		return "other"
+	}
+	return "garbled"
+}
+
+// observe reports everything seen of staged upload u so far, keyed like the spec's exp.
+func (m *mgr) observe(u *stUpload) (replay.Obs, error) {
+	m.mu.Lock()
+	defer m.mu.Unlock()
+	obs := replay.Obs{}
+	notes := []string{}
+	if u.stuck {
+		for _, k := range []string{"put_key", "put_body", "put_enc", "overwrote", "err", "url_key", "url_fresh", "obj_body", "obj_enc"} {
+			obs[k] = "stuck"
+		}
+		obs["__note__"] = fmt.Sprintf("upload %d neither reached a station nor returned within 45 s (last station %d)", u.uid, u.at)
+		return obs, nil
+	}
+	if u.finished && u.err != nil && envTrouble(u.err) {
+		return nil, fmt.Errorf("staged upload %d: environment: %w", u.uid, u.err)
+	}
+	if len(u.puts) > 0 {
+		p := u.puts[len(u.puts)-1]
+		obs["put_key"] = u.putClaim
+		obs["put_body"] = m.whose(p.body, u.payload)
+		obs["put_enc"] = encName(p.enc)
+		if u.putClaim != "own" {
+			notes = append(notes, fmt.Sprintf("PUT of upload %d went to %s (key first seen with: %s), its own key is %s", u.uid, p.path, m.seen[m.bare(p.path)], u.own))
+		}
+		if len(u.puts) > 1 {
+			notes = append(notes, fmt.Sprintf("%d PUTs for one upload", len(u.puts)))
+		}
+	} else if u.finished {
+		obs["put_key"], obs["put_body"], obs["put_enc"] = "none", "none", "none"
+	}
+	if u.stored != nil {
+		obs["overwrote"] = u.stored.overwrote
+	} else if u.finished {
+		obs["overwrote"] = "none"
+	}
+	if u.finished {
+		obs["err"] = u.err != nil
+		if u.err != nil {
+			notes = append(notes, "Upload failed with no fault injected: "+u.err.Error())
+			obs["url_key"], obs["url_fresh"], obs["obj_body"], obs["obj_enc"] = "none", "none", "none", "none"
+		} else {
+			path := ""
+			if pu, err := url.Parse(u.url); err == nil {
+				path = pu.Path
+			}
+			tag := fmt.Sprintf("staged upload %d", u.uid)
+			b := m.bare(path)
+			switch who, known := m.seen[b]; {
+			case path == u.own:
+				obs["url_key"] = "own"
+			case known && who != tag:
+				obs["url_key"] = "other"
+				notes = append(notes, fmt.Sprintf("returned URL names key %s of %s", path, who))
+			default:
+				obs["url_key"] = "stray"
+			}
+			prev, dup := m.returned[b]
+			obs["url_fresh"] = !dup || prev == tag
+			if !dup {
+				m.returned[b] = tag
+			}
+			if o := m.bucket[path]; o != nil {
+				obs["obj_body"] = m.whose(o.body, u.payload)
+				obs["obj_enc"] = encName(o.enc)
+			} else {
+				obs["obj_body"], obs["obj_enc"] = "absent", "absent"
+			}
+		}
+	}
+	if len(notes) > 0 {
+		obs["__note__"] = strings.Join(notes, "; ")
+	}
+	return obs, nil
+}
+
+func envTrouble(err error) bool {
+	s := err.Error()
+	for _, p := range []string{"dial tcp", "too many open files", "cannot assign requested address", "connection refused"} {
+		if strings.Contains(s, p) {
+			return true
+		}
+	}
+	return false
+}
+
+func (m *mgr) audit() replay.Obs {
+	m.mu.Lock()
+	defer m.mu.Unlock()
+	lost := 0
+	distinct := true
+	paths := map[string]int{}
+	notes := []string{}
+	for _, u := range m.order {
+		path := ""
+		if pu, err := url.Parse(u.url); err == nil && u.err == nil {
+			path = pu.Path
+		}
+		if prev, dup := paths[path]; dup {
+			distinct = false
+			notes = append(notes, fmt.Sprintf("uploads %d and %d got the same key %s back", prev, u.uid, path))
+		}
+		paths[path] = u.uid
+		o := m.bucket[path]
+		if o == nil || !bytes.Equal(o.body, u.payload) || o.enc != u.enc {
+			lost++
+			notes = append(notes, fmt.Sprintf("the object under the key returned to upload %d does not hold its payload and encoding", u.uid))
+		}
+	}
+	obs := replay.Obs{"lost": lost, "distinct": distinct}
+	if len(notes) > 0 {
+		obs["__note__"] = strings.Join(notes, "; ")
+	}
+	return obs
+}
+
+type burstRes struct {
+	keys   []string // bare keys of the PUTs the endpoint saw
+	intact bool
+	failed bool
+	note   string
+	env    error
+}
+
+// burst performs n free-running uploads from 16 goroutines on the behaviour's storage.
+func (m *mgr) burst(n int, payloads [][]byte, encs []string) burstRes {
+	m.mu.Lock()
+	st := m.st
+	from := len(m.log)
+	for _, p := range payloads {
+		m.payloads[sha256.Sum256(p)] = "burst"
+	}
+	m.mu.Unlock()
+	urls := make([]string, n)
+	errs := make([]error, n)
+	var wg sync.WaitGroup
+	for g := 0; g < goroutines; g++ {
+		wg.Add(1)
+		go func() {
+			defer wg.Done()
+			for i := g; i < n; i += goroutines {
+				urls[i], errs[i] = st.Upload(payloads[i], nil, encs[i])
+			}
+		}()
+	}
+	wg.Wait()
+	m.mu.Lock()
+	defer m.mu.Unlock()
+	res := burstRes{intact: true}
+	puts := m.log[from:]
+	for _, p := range puts {
+		res.keys = append(res.keys, m.bare(p.path))
+	}
+	problems := 0
+	bad := func(f string, a ...any) {
+		res.intact = false
+		if problems++; problems <= 3 {
+			if res.note != "" {
+				res.note += "; "
+			}
+			res.note += fmt.Sprintf(f, a...)
+		}
+	}
+	back := map[string]int{}
+	for i := range urls {
+		if errs[i] != nil {
+			if envTrouble(errs[i]) {
+				res.env = errs[i]
+				return res
+			}
+			res.failed = true
+			bad("Upload failed with no fault injected: %v", errs[i])
+			continue
+		}
+		pu, err := url.Parse(urls[i])
+		if err != nil {
+			bad("returned URL %q does not parse", urls[i])
+			continue
+		}
+		if j, dup := back[pu.Path]; dup {
+			bad("uploads %d and %d of the batch got the same key %s back", j, i, pu.Path)
+		}
+		back[pu.Path] = i
+		o := m.bucket[pu.Path]
+		switch {
+		case o == nil:
+			bad("the key %s returned to upload %d of the batch names no stored object", pu.Path, i)
+		case !bytes.Equal(o.body, payloads[i]):
+			bad("object under the key returned to an upload holds %s payload (%d bytes, sent %d)", m.whose(o.body, payloads[i])+"'s", len(o.body), len(payloads[i]))
+		case o.enc != encs[i]:
+			bad("object under the key returned to an upload has Content-Encoding %q, sent %q", o.enc, encs[i])
+		}
+	}
+	if len(puts) != n {
+		bad("endpoint saw %d PUTs for %d uploads", len(puts), n)
+	}
+	if problems > 3 {
+		res.note += fmt.Sprintf("; ... (%d problems in this batch of %d)", problems, n)
+	}
+	return res
 }
 
 // ---------------------------------------------------------------------------
@@ -158,6 +655,9 @@ type stepper struct {
 	seen    map[string]string // key -> who produced it first
 	pending map[string][]string
 	bucket  map[string]bool
+	staged  bool // the behaviour has staged uploads: keep batches of real uploads small
+	begun   bool
+	batches int
 }
 
 func (s *stepper) Begin(b replay.Behaviour, rng *rand.Rand) error {
@@ -169,12 +669,57 @@ func (s *stepper) Begin(b replay.Behaviour, rng *rand.Rand) error {
 	s.seen = map[string]string{}
 	s.pending = map[string][]string{}
 	s.bucket = map[string]bool{}
+	for _, st := range b {
+		if st.A == "StartUp" {
+			s.staged = true
+		}
+	}
 	return nil
 }
 
-func (s *stepper) End() {}
+func (s *stepper) End() {
+	if s.begun {
+		outside(func() { theMgr.end() })
+	}
+}
 
-var bigBursts, totalKeys, uploadCalls int
+// storage builds the behaviour's storage instance on first use.
+func (s *stepper) storage() error {
+	if s.begun {
+		return nil
+	}
+	prefixes := []string{"", "pfx/", "a/b/c/", "vgi-rpc/"}
+	prefix := prefixes[s.rng.Intn(len(prefixes))]
+	var err error
+	outside(func() { err = theMgr.begin(prefix, s.seen, s.staged) })
+	if err == nil {
+		s.begun = true
+	}
+	return err
+}
+
+// payload draws a payload no other upload of the behaviour has.
+func (s *stepper) payload(tag string) []byte {
+	n := 0
+	switch r := s.rng.Intn(20); {
+	case r < 11:
+		n = s.rng.Intn(200)
+	case r < 18:
+		n = 1024 + s.rng.Intn(7*1024)
+	default:
+		n = 64*1024 + s.rng.Intn(192*1024)
+		if s.tier == "thorough" && s.rng.Intn(3) == 0 {
+			n = 512*1024 + s.rng.Intn(1024*1024)
+		}
+	}
+	head := fmt.Sprintf("%s/%016x|", tag, s.rng.Uint64())
+	p := make([]byte, len(head)+n)
+	copy(p, head)
+	s.rng.Read(p[len(head):])
+	return p
+}
+
+var bigBursts, totalKeys, uploadCalls, stagedUploads, stagedSteps, noSDKGate int
 
 func (s *stepper) batch() int {
 	big := 10000
@@ -226,21 +771,38 @@ func (s *stepper) Step(i int, st replay.Step) (replay.Obs, error) {
 			}
 			wg.Wait()
 		case "upload":
-			if uploads == nil {
+			if theMgr == nil {
 				return replay.Obs{"__skip__": true, "__note__": "S3 upload path not available"}, nil
+			}
+			if err := s.storage(); err != nil {
+				return nil, fmt.Errorf("upload path: %w", err)
 			}
 			n := 64
 			if s.tier == "thorough" {
 				n = 400
 			}
-			rq := uploadReq{n: n, reply: replyChan}
-			uploads <- rq
-			res := <-rq.reply
-			if res.err != nil {
-				return nil, fmt.Errorf("upload path: %w", res.err)
+			if s.staged {
+				n = 17 + s.rng.Intn(32)
+			}
+			s.batches++
+			payloads := make([][]byte, n)
+			encs := make([]string, n)
+			for j := range payloads {
+				payloads[j] = s.payload(fmt.Sprintf("batch %d call %d", s.batches, j))
+				encs[j] = []string{"", "zstd", "", "gzip"}[s.rng.Intn(4)]
+			}
+			var res burstRes
+			outside(func() { res = theMgr.burst(n, payloads, encs) })
+			if res.env != nil {
+				return nil, fmt.Errorf("upload path: environment: %w", res.env)
 			}
 			uploadCalls += n
 			keys = res.keys
+			obs["intact"] = res.intact
+			obs["err"] = res.failed
+			if res.note != "" {
+				obs["__note__"] = res.note
+			}
 		default:
 			return nil, fmt.Errorf("unknown via %q", via)
 		}
@@ -262,7 +824,11 @@ func (s *stepper) Step(i int, st replay.Step) (replay.Obs, error) {
 		s.pending[th] = keys
 		obs["fresh"] = fresh
 		if !fresh {
-			obs["__note__"] = fmt.Sprintf("%d of %d keys of this upload batch (via %s) were already used, e.g. %s", dups, len(keys), via, example)
+			note := fmt.Sprintf("%d of %d keys of this upload batch (via %s) were already used, e.g. %s", dups, len(keys), via, example)
+			if prev, ok := obs["__note__"].(string); ok {
+				note = prev + "; " + note
+			}
+			obs["__note__"] = note
 		}
 	case "Put":
 		over := false
@@ -281,16 +847,67 @@ func (s *stepper) Step(i int, st replay.Step) (replay.Obs, error) {
 		if over {
 			obs["__note__"] = "an object written by another upload was overwritten"
 		}
+	case "StartUp", "StepUp":
+		if theMgr == nil {
+			return replay.Obs{"__skip__": true, "__note__": "S3 upload path not available"}, nil
+		}
+		if err := s.storage(); err != nil {
+			return nil, fmt.Errorf("upload path: %w", err)
+		}
+		uid := replay.Int(st.Args, "uid")
+		target, ok := stationIdx[replay.Str(st.Args, "to")]
+		if !ok {
+			return nil, fmt.Errorf("unknown station %q", replay.Str(st.Args, "to"))
+		}
+		m := theMgr
+		var u *stUpload
+		if st.A == "StartUp" {
+			enc := replay.Str(st.Args, "enc")
+			if enc == "none" {
+				enc = ""
+			}
+			u = &stUpload{uid: uid, enc: enc, payload: s.payload(fmt.Sprintf("staged upload %d", uid))}
+			stagedUploads++
+		}
+		var o replay.Obs
+		var err error
+		outside(func() {
+			if u != nil {
+				m.mu.Lock()
+				m.ups[uid] = u
+				m.payloads[sha256.Sum256(u.payload)] = fmt.Sprintf("staged upload %d", uid)
+				m.mu.Unlock()
+			} else if u = m.ups[uid]; u == nil {
+				err = fmt.Errorf("no staged upload %d", uid)
+				return
+			}
+			m.advance(u, target, st.A == "StartUp")
+			o, err = m.observe(u)
+		})
+		if err != nil {
+			return nil, err
+		}
+		stagedSteps++
+		if !m.sdkGate {
+			noSDKGate++
+		}
+		return o, nil
+	case "Audit":
+		if theMgr == nil {
+			return replay.Obs{"__skip__": true, "__note__": "S3 upload path not available"}, nil
+		}
+		if !s.begun {
+			return nil, fmt.Errorf("Audit without uploads")
+		}
+		outside(func() { obs = theMgr.audit() })
 	default:
 		return nil, fmt.Errorf("unknown action %q", st.A)
 	}
 	return obs, nil
 }
 
-var replyChan = make(chan uploadRes) // created outside the bubble
-
 func TestReplay(t *testing.T) {
-	stop, err := startUploader()
+	stop, err := startEndpoint()
 	if err != nil {
 		t.Logf("keygen: S3 upload path disabled: %v", err)
 	} else {
@@ -299,5 +916,6 @@ func TestReplay(t *testing.T) {
 	synctest.Test(t, func(t *testing.T) {
 		replay.Run(t, "KeyGen", func() replay.Stepper { return &stepper{} })
 	})
-	fmt.Printf("keygen: %d keys generated, %d full-size batches, %d Upload calls\n", totalKeys, bigBursts, uploadCalls)
+	fmt.Printf("keygen: %d keys generated, %d full-size batches, %d free-running Upload calls, %d staged uploads held %d times (%d without SDK stations)\n",
+		totalKeys, bigBursts, uploadCalls, stagedUploads, stagedSteps, noSDKGate)
 }
